@@ -169,6 +169,76 @@ Fixpoint run_del (ps : list pcoord) (d : node) : final :=
 (* Processor.delete_nodes / delete_gathered_nodes on already gathered coordinates *)
 Definition delete_nodes (cs : list coord) (d : node) : final := run_del (del_order cs) d.
 
+(* ---- the YAML-merge-key test of the dict branch (processor.py 777-799) ----
+   Before `del parent[parentref]` the dict branch scans the WHOLE document for
+   anchors (Anchors.scan_for_anchors(ancestry[0][0])) and, when parentref is
+   the anchor name of a MAPPING (is_ymk_anchor) and the parent itself has
+   merge keys (`hasattr(parent, "merge") and len(parent.merge) > 0`), removes a
+   `<<: *anchor` reference instead of a key.  The removal itself is NOT
+   modelled (outcome PyCrash NotImplemented); what is modelled is exactly when
+   the code leaves the ordinary path.  [mg] = identities of the CommentedMap
+   objects whose .merge list is non-empty (Doc.node does not represent merge
+   keys; the harness ships them beside the document). *)
+Definition anc_of (n : node) : list (string * node) :=
+  match anchor (node_info n) with
+  | Some a => if has_anchor_attr (node_info n) then [(a, n)] else []
+  | None => []
+  end.
+
+(* Anchors.scan_for_anchors(dom, anchors): the (name, node) assignments in the
+   order the scan makes them (a later one overwrites an earlier one).  A
+   mapping records its keys and values and descends into map / seq values; a
+   sequence only descends (so an anchored mapping that is a sequence ELEMENT
+   is never recorded, and neither is the root's own anchor); anything else
+   records itself. *)
+Fixpoint scan_anchors (d : node) : list (string * node) :=
+  match d with
+  | NMap _ kvs =>
+      flat_map (fun kv => anc_of (fst kv) ++ anc_of (snd kv) ++
+                          match snd kv with
+                          | NMap _ _ | NSeq _ _ => scan_anchors (snd kv)
+                          | _ => []
+                          end) kvs
+  | NSeq _ els => flat_map scan_anchors els
+  | _ => anc_of d
+  end.
+
+(* all_anchors[name] after the scan: the LAST assignment *)
+Fixpoint last_anchor (name : string) (l : list (string * node)) (acc : option node) : option node :=
+  match l with
+  | [] => acc
+  | (a, n) :: r => last_anchor name r (if String.eqb a name then Some n else acc)
+  end.
+
+(* `compare_node is not None and isinstance(compare_node, dict)` *)
+Definition is_ymk_anchor (r : pyval) (d : node) : bool :=
+  match r with
+  | PStr s => match last_anchor s (scan_anchors d) None with Some n => is_map n | None => false end
+  | _ => false
+  end.
+
+Definition del_step_mg (mg : list N) (p : pcoord) (d : node) : res node :=
+  match pc_parent p with
+  | None => RErr (YPE NoDocument)
+  | Some o =>
+      if existsb (N.eqb o) mg && is_ymk_anchor (pc_ref p) d
+      then RErr (PyCrash NotImplemented)          (* the merge-key removal branch: outside the model *)
+      else app_obj o (del_in (pc_ref p)) d         (* `elif parentref in parent: del parent[parentref]`, lists, sets *)
+  end.
+
+Fixpoint run_del_mg (mg : list N) (ps : list pcoord) (d : node) : final :=
+  match ps with
+  | [] => Done d
+  | p :: r => match del_step_mg mg p d with
+              | ROk d' => run_del_mg mg r d'
+              | RErr e => Failed d e
+              end
+  end.
+
+(* Processor.delete_nodes on a document some of whose mappings carry merge keys;
+   [delete_nodes] above is the case mg = [] (C04merge.delete_nodes_mg_nil) *)
+Definition delete_nodes_mg (mg : list N) (cs : list coord) (d : node) : final := run_del_mg mg (del_order cs) d.
+
 (* ================= part 2: set_value / _apply_change / _update_node =======
    processor.py 169-343 and 2630-2760 after the fix: commits 2481ae4 (sets),
    aaea88e (aliases in sequences), f917898 (addressed position + true aliases
